@@ -65,4 +65,9 @@ def units(ctx):
     from vlib.pyvc.unit import contract_unit as _cu5
     us += [_cu5(c, world_setup=_r5.setup_call)
            for c in _r5.call_contracts()]
+    # a lazy operand is never fed to an eager consumer (the per-element
+    # lambdas of an upstream stage would run for elements nobody needs)
+    from props import C14 as _c14
+    from vlib import core as _core11
+    us.append(_core11.Unit('sigflow:streaming', _c14.flow_unit, 'sigflow'))
     return us
